@@ -8,7 +8,7 @@ the retention rule, temporary blocks, finalized marker) answers as a function of
 configured to 2-3 blocks so that it slides, runs empty and is refilled inside short scripts."""
 from props import c03
 
-C05_KEYS = ("delete-not-restoring", "delete-refused", "temp-missing", "reorg-not-equivalent", "state-mismatch:temp", "state-mismatch:bftheights", "restart-fails")
+C05_KEYS = ("state-mismatch:finalized", "delete-not-restoring", "delete-refused", "temp-missing", "reorg-not-equivalent", "state-mismatch:temp", "state-mismatch:bftheights", "restart-fails")
 
 def diff_level(ctx):
     """the revert-diff mechanics at key level (keys created / overwritten / deleted inside one commit, empty values,
